@@ -644,11 +644,32 @@ class TurtleWriter:
                         collect(o)
         iris = list(dict.fromkeys(iris))
         lines = self.directives(iris)
+
+        def redeclare():
+            """now and then a prefix is bound again, to another namespace, in the middle of the document"""
+            if not self.prefixes or not c.flag(4):
+                return
+            name = c.choice(sorted(set(self.prefixes.values())))
+            cands = [i[:p] for i in iris for p in split_points(i)[-1:] if i[:p] not in self.prefixes and not re.search(r'[\x00-\x20<>"{}|^`\\]', i[:p])]
+            if not cands:
+                return
+            ns = c.choice(cands)
+            for k in [k for k, v in self.prefixes.items() if v == name]:
+                del self.prefixes[k]
+            self.prefixes[ns] = name
+            c.feat("prefix-redeclared")
+            if c.flag():
+                lines.append("@prefix %s: <%s> ." % (name, ns))
+            else:
+                c.feat("PREFIX")
+                lines.append("%s %s: <%s>" % (c.choice(["PREFIX", "prefix"]), name, ns))
         for g, stmts in blocks:
             if not self.trig:
                 for s, pl in stmts:
+                    redeclare()
                     lines.append(self.statement(s, pl))
                 continue
+            redeclare()
             if g is None and c.flag():
                 c.feat("trig-bare-triples")
                 for s, pl in stmts:
@@ -932,6 +953,8 @@ class RDFXMLWriter:
             if sp and sp[0] not in self.ns and names and c.flag(3) is False:
                 self.ns[sp[0]] = names.pop(0)
         hier = [i for i in iris if re.match(r"^https?://[^#]*$", i)]
+        # (a base that makes rdf:ID usable: the part before the fragment of an IRI whose fragment is an NCName)
+        hier += [i.split("#")[0] for i in iris if re.match(r"^https?://[^#]+#", i) and _NCNAME.match(i.split("#", 1)[1])]
         root_attrs = "".join(' xmlns:%s="%s"' % (p, self.esc(u, attr=True)) for u, p in self.ns.items())
         if hier and c.flag():
             self.base = c.choice(hier)
@@ -946,3 +969,273 @@ class RDFXMLWriter:
             return head + self.node(nodes[0], None, 0, root_attrs=root_attrs)
         body = "".join(self.gap() + self.node(n, None, 1) for n in nodes)
         return head + "<rdf:RDF" + root_attrs + ">" + body + self.gap() + "</rdf:RDF>" + c.choice(["", "\n", "\n<!-- end -->"])
+
+
+# ---------------------------------------------------------------- JSON-LD: document ASTs, their meaning, and a randomised writer
+# nodeobj ::= {"id": term|None, "types": [iri, ...], "props": [(p_iri, [value, ...]), ...], "reverse": [(p_iri, [nodeobj, ...]), ...]}
+# value   ::= ("lit", literal) | ("ref", term) | ("node", nodeobj) | ("list", [value, ...])
+# document ::= {"default": [nodeobj, ...], "graphs": [(graph_term, [nodeobj, ...]), ...]}
+def eval_jsonld(doc):
+    out = set()
+    counter = [0]
+
+    def fresh(pre):
+        counter[0] += 1
+        return ("b", "%s%d" % (pre, counter[0]))
+
+    def value(v, g):
+        if v[0] == "lit":
+            return v[1]
+        if v[0] == "ref":
+            return v[1]
+        if v[0] == "node":
+            return node(v[1], g)
+        if v[0] == "list":
+            if not v[1]:
+                return NIL
+            cells = [fresh("jcell") for _ in v[1]]
+            for i, m in enumerate(v[1]):
+                out.add((cells[i], FIRST, value(m, g), g))
+                out.add((cells[i], REST, cells[i + 1] if i + 1 < len(cells) else NIL, g))
+            return cells[0]
+        raise ValueError(v)
+
+    def node(n, g):
+        s = n["id"] if n["id"] is not None else fresh("janon")
+        for t in n["types"]:
+            out.add((s, TYPE, ("u", t), g))
+        for p, vals in n["props"]:
+            for v in vals:
+                out.add((s, ("u", p), value(v, g), g))
+        for p, subs in n.get("reverse", []):
+            for m in subs:
+                out.add((node(m, g), ("u", p), s, g))
+        return s
+
+    for n in doc["default"]:
+        node(n, None)
+    for gterm, nodes in doc["graphs"]:
+        for n in nodes:
+            node(n, gterm)
+    return out
+
+
+class JSONLDWriter:
+    def __init__(self, c):
+        self.c = c
+        self.prefixes = {}   # ns -> term
+        self.vocab = None
+        self.base = None
+        self.terms = {}      # predicate iri -> (term name, coercion) ; coercion: None | "@id" | datatype iri | ("lang", tag) | "@list"
+        self.default_lang = None
+
+    # --- IRI spellings
+    def compact(self, iri, vocab_ok):
+        c = self.c
+        opts = []
+        if vocab_ok and self.vocab and iri.startswith(self.vocab):
+            loc = iri[len(self.vocab):]
+            if loc and ":" not in loc and not loc.startswith("@") and loc not in self.term_names() and "/" not in loc[:1]:
+                opts.append(("vocab", loc))
+        for ns, name in self.prefixes.items():
+            if iri.startswith(ns):
+                loc = iri[len(ns):]
+                if not loc.startswith("//"):
+                    opts.append(("prefix", name + ":" + loc))
+        if opts and c.flag(4) is False:
+            kind, s = c.choice(opts)
+            c.feat("compact-iri" if kind == "prefix" else "vocab-relative")
+            return s
+        return iri
+
+    def term_names(self):
+        return {t for t, _ in self.terms.values()} | set(self.prefixes.values())
+
+    def id_value(self, t):
+        """spelling of a node reference (document-relative)"""
+        c = self.c
+        if t[0] == "b":
+            return "_:" + t[1]
+        iri = t[1]
+        if self.base and c.flag():
+            cands = relative_candidates(self.base, iri)
+            if cands:
+                label, ref = c.choice(cands)
+                if ref != "" and not ref.startswith("_:") and ":" not in ref.split("/")[0].split("?")[0].split("#")[0]:
+                    c.feat("relative-iri:" + label)
+                    return ref
+        for ns, name in self.prefixes.items():
+            if iri.startswith(ns) and not iri[len(ns):].startswith("//") and c.flag(3):
+                c.feat("compact-iri")
+                return name + ":" + iri[len(ns):]
+        return iri
+
+    def lit(self, l, coercion):
+        c = self.c
+        lex, dt, lang = l[1], l[2], l[3]
+        if lang:
+            if coercion == ("lang", lang) or (coercion is None and self.default_lang == lang and c.flag()):
+                c.feat("language-by-context")
+                return lex
+            return {"@value": lex, "@language": vary_case(lang, c)}
+        if dt:
+            if coercion == dt:
+                c.feat("type-coercion")
+                return lex
+            if dt == XSD + "integer" and re.fullmatch(r"-?(0|[1-9][0-9]{0,14})", lex) and coercion is None and c.flag():
+                c.feat("native-integer")
+                return int(lex)
+            if dt == XSD + "boolean" and lex in ("true", "false") and coercion is None and c.flag():
+                c.feat("native-boolean")
+                return lex == "true"
+            if dt == XSD + "string" and False:
+                return lex
+            return {"@value": lex, "@type": self.compact(dt, True)}
+        # plain literal
+        if coercion is None and not self.default_lang and c.flag():
+            return lex
+        if coercion is None and self.default_lang:
+            c.feat("language-reset")
+            return {"@value": lex} if c.flag() else {"@value": lex, "@language": None}
+        return {"@value": lex}
+
+    def value(self, v, coercion):
+        c = self.c
+        if v[0] == "lit":
+            return self.lit(v[1], coercion if not isinstance(coercion, str) or coercion not in ("@id", "@list") else "x")
+        if v[0] == "ref":
+            if coercion == "@id" and v[1][0] == "u":
+                c.feat("id-coercion")
+                return self.id_value(v[1])
+            return {"@id": self.id_value(v[1])}
+        if v[0] == "node":
+            c.feat("nested-node")
+            return self.node(v[1])
+        if v[0] == "list":
+            c.feat("@list")
+            return {"@list": [self.value(m, coercion) for m in v[1]]}  # (the term's coercion applies to list members too)
+        raise ValueError(v)
+
+    def key(self, p):
+        if p in self.terms and self.c.flag(5) is False:
+            self.c.feat("term")
+            return self.terms[p][0], self.terms[p][1]
+        return self.compact(p, True), None
+
+    def node(self, n):
+        c = self.c
+        items = []
+        if n["id"] is not None:
+            items.append(("@id", self.id_value(n["id"])))
+        if n["types"]:
+            ts = [self.compact(t, True) for t in n["types"]]
+            items.append(("@type", ts[0] if len(ts) == 1 and c.flag() else ts))
+        merged = {}
+        for p, vals in n["props"]:
+            k, co = self.key(p)
+            if k in merged and merged[k][0] != co:
+                k, co = p, None  # two spellings of one predicate with different coercions cannot share a key
+            lst = merged.setdefault(k, (co, []))[1]
+            if co == "@list":
+                # a list-container term: the array is the list; only usable for exactly one list value
+                if len(vals) == 1 and vals[0][0] == "list" and not lst:
+                    c.feat("container-list")
+                    lst.append(("__listcontainer__", [self.value(m, None) for m in vals[0][1]]))
+                    continue
+                del merged[k]
+                k, co = p, None
+                lst = merged.setdefault(k, (co, []))[1]
+            for v in vals:
+                lst.append(self.value(v, co))
+        for k, (co, lst) in merged.items():
+            if lst and isinstance(lst[0], tuple) and lst[0][0] == "__listcontainer__":
+                items.append((k, lst[0][1]))
+            elif len(lst) == 1 and c.flag():
+                items.append((k, lst[0]))
+            else:
+                if len(lst) > 1:
+                    c.feat("multi-value-array")
+                items.append((k, lst))
+        if n.get("reverse"):
+            c.feat("@reverse")
+            items.append(("@reverse", {self.compact(p, True): [self.node(m) for m in subs] for p, subs in n["reverse"]}))
+        if c.flag(3):
+            c.feat("key-order")
+            items = items[::-1]
+        return dict(items)
+
+    def context(self, iris, preds, langs, datatypes):
+        c = self.c
+        ctx = {}
+        for i in iris:
+            pts = [p for p in split_points(i) if p < len(i) or True]
+            if not pts or not c.flag(3):
+                continue
+            ns = i[:pts[-1]] if c.flag(4) is False else i[:c.choice(pts)]
+            name = c.choice(["ex", "a", "dc", "p1", "x-y", "é", "Ns"])
+            if ns in self.prefixes or name in ctx or ns[-1] not in ":/?#[]@":
+                continue
+            self.prefixes[ns] = name
+            ctx[name] = ns
+            c.feat("prefix-term")
+        if preds and c.flag(3):
+            p = c.choice(preds)
+            pts = split_points(p)
+            if pts:
+                self.vocab = p[:pts[-1]]
+                ctx["@vocab"] = self.vocab
+                c.feat("@vocab")
+        hier = [i for i in iris if re.match(r"^https?://[^#?]*$", i)]
+        if hier and c.flag(3):
+            self.base = c.choice(hier)
+            ctx["@base"] = self.base
+            c.feat("@base")
+        if langs and c.flag(4):
+            self.default_lang = c.choice(langs)
+            ctx["@language"] = self.default_lang
+            c.feat("default-language")
+        for i, p in enumerate(preds):
+            if not c.flag(3):
+                continue
+            name = "t%d" % i
+            k = c.pick(5)
+            if k == 0:
+                ctx[name] = p
+                self.terms[p] = (name, None)
+            elif k == 1:
+                ctx[name] = {"@id": p, "@type": "@id"}
+                self.terms[p] = (name, "@id")
+            elif k == 2 and datatypes:
+                dt = c.choice(datatypes)
+                ctx[name] = {"@id": p, "@type": dt}
+                self.terms[p] = (name, dt)
+            elif k == 3 and langs:
+                lg = c.choice(langs)
+                ctx[name] = {"@id": p, "@language": lg}
+                self.terms[p] = (name, ("lang", lg))
+            elif k == 4:
+                ctx[name] = {"@id": p, "@container": "@list"}
+                self.terms[p] = (name, "@list")
+        return ctx
+
+    def document(self, doc, iris, preds, langs, datatypes):
+        import json as _json
+        c = self.c
+        ctx = self.context(iris, preds, langs, datatypes) if c.flag(4) is False else {}
+        top = [self.node(n) for n in doc["default"]]
+        for gterm, nodes in doc["graphs"]:
+            c.feat("named-graph")
+            top.append({"@id": self.id_value(gterm), "@graph": [self.node(n) for n in nodes]})
+        if len(top) == 1 and c.flag():
+            body = top[0]
+            if ctx:
+                body = dict([("@context", ctx)] + list(body.items())) if c.flag() else dict(list(body.items()) + [("@context", ctx)])
+        elif ctx or doc["graphs"] or c.flag():
+            c.feat("top-level-@graph")
+            body = {"@graph": top}
+            if ctx:
+                body = {"@context": ctx, "@graph": top} if c.flag() else {"@graph": top, "@context": ctx}
+        else:
+            body = top
+        kw = c.choice([{}, {"indent": 1}, {"separators": (",", ":")}, {"ensure_ascii": False}, {"ensure_ascii": False, "indent": "\t"}])
+        return _json.dumps(body, **kw)
